@@ -118,7 +118,7 @@ Definition str_encode (seq : list (string * string)) (k : nat) (s : list Z) : li
 Definition vattr_encode (a : vattr) : list Z :=
   let s := vpackvs_seq in encn s 17 (va_findex a) ++ encn s 18 (va_tag a) ++ encn s 19 (va_ref a).
 
-Definition vh_encode (v : vh) : list Z :=
+Definition vh_body (v : vh) : list Z :=
   let s := vpackvs_seq in
   encn s 0 (vh_interlace v) ++ encn s 1 (vh_nvert v) ++ encn s 2 (vh_ivsize v) ++ encn s 3 (zlen (vh_types v)) ++
   flat_map (encn s 4) (vh_types v) ++ flat_map (encn s 5) (vh_isizes v) ++ flat_map (encn s 6) (vh_offs v) ++
@@ -128,8 +128,13 @@ Definition vh_encode (v : vh) : list Z :=
   (if vh_flags v =? 0 then [] else
      encn s 15 (vh_flags v) ++
      if Z.land (vh_flags v) VS_ATTR_SET =? 0 then [] else
-       encn s 16 (zlen (vh_attrs v)) ++ flat_map vattr_encode (vh_attrs v)) ++
-  encn s 20 (vh_version v) ++ encn s 21 (vh_more v) ++ [0].
+       encn s 16 (zlen (vh_attrs v)) ++ flat_map vattr_encode (vh_attrs v)).
+
+(** the duplicated version / more fields and the one byte by which the size is over-counted ("*bb = 0") *)
+Definition vh_tail (v : vh) : list Z :=
+  let s := vpackvs_seq in encn s 20 (vh_version v) ++ encn s 21 (vh_more v) ++ [0].
+
+Definition vh_encode (v : vh) : list Z := vh_body v ++ vh_tail v.
 
 (* ---- vgp.c vpackvg ------------------------------------------------------------------------------------- *)
 Definition vgattr_encode (a : Z * Z) : list Z :=
@@ -139,7 +144,7 @@ Definition vgattr_encode (a : Z * Z) : list Z :=
 Definition vg_out_version (g : vg) : Z :=
   if negb (vg_flags g =? 0) && (vg_version g <? VSET_NEW_VERSION) then VSET_NEW_VERSION else vg_version g.
 
-Definition vg_encode (g : vg) : list Z :=
+Definition vg_body (g : vg) : list Z :=
   let s := vpackvg_seq in
   encn s 0 (zlen (vg_tags g)) ++ flat_map (encn s 1) (vg_tags g) ++ flat_map (encn s 2) (vg_refs g) ++
   str_encode s 3 (vg_name g) ++ str_encode s 4 (vg_class g) ++
@@ -147,8 +152,13 @@ Definition vg_encode (g : vg) : list Z :=
   (if vg_flags g =? 0 then [] else
      encn s 7 (vg_flags g) ++
      if Z.land (vg_flags g) VG_ATTR_SET =? 0 then [] else
-       encn s 8 (zlen (vg_attrs g)) ++ flat_map vgattr_encode (vg_attrs g)) ++
-  encn s 11 (vg_out_version g) ++ encn s 12 (vg_more g) ++ [0].
+       encn s 8 (zlen (vg_attrs g)) ++ flat_map vgattr_encode (vg_attrs g)).
+
+(** version, more, and the historic extra byte ("the '+1' part shouldn't be there") *)
+Definition vg_tail (g : vg) : list Z :=
+  let s := vpackvg_seq in encn s 11 (vg_out_version g) ++ encn s 12 (vg_more g) ++ [0].
+
+Definition vg_encode (g : vg) : list Z := vg_body g ++ vg_tail g.
 
 (* ---- hblocks.c HLgetdatainfo (after the fix: both loops test info_count) ---------------------------- *)
 (** [cap]: None = NULL arrays (count only); Some n = arrays of n entries.
